@@ -51,7 +51,9 @@ def evil_path(r, prefix):
     base = r.choice(bases)
     depth = base.rstrip("/").count("/") if base != "/" else 0
     k = r.random()
-    tail = r.choice(["root-old/x", "root.bak/new", "rootx", "root-old/", "outside/x.ics", "outside/secret.ics", "outside/col/", "outside/col/m.ics", "outside/newcol", "outside/newcol/", "outside", "tmp/x", "", "root/user/", "outside/col/.git/config", "evil"])
+    tail = r.choice(["root-old/x", "root.bak/new", "rootx", "root-old/", "outside/x.ics", "outside/secret.ics", "outside/col/", "outside/col/m.ics", "outside/newcol", "outside/newcol/", "outside", "tmp/x", "", "root/user/", "outside/col/.git/config", "evil",
+                     # the dumb git protocol of a repository next to the root
+                     "outside/col/.git/HEAD", "outside/col/.git/info/refs", "outside/col/.git/objects/info/packs"])
     if k < 0.55:
         # climb out by exactly (or about) the depth of the base
         up = depth + r.choice([0, 1, 1, 1, 2, 3])
@@ -210,6 +212,11 @@ class PathRun:
                 for op in self.replay_ops:
                     self.step(dict(op))
             else:
+                if self.rng.random() < 0.3:
+                    # inside the root there is a collection where the clamped form of an escaping path
+                    # points (the twin of the repository outside)
+                    for p in ("/outside", "/outside/col"):
+                        self.step({"op": "req", "method": "MKCOL", "path": p, "benign": True, "salt": 0})
                 for i in range(self.cfg["steps"]):
                     self.step(self.gen_op())
                 if self.rng.random() < 0.2:
